@@ -403,6 +403,7 @@ func Main[C any](s Spec[C], args []string) int {
 	exit := 0
 	sort.Strings(sigOrder)
 	nViol := 0
+	unconfirmed := 0
 	var knownSeen []string
 	for _, sig := range sigOrder {
 		f := bySig[sig]
@@ -431,8 +432,11 @@ func Main[C any](s Spec[C], args []string) int {
 			}
 		}
 		if !ok {
-			fmt.Fprintf(os.Stderr, "INTERNAL-ERROR check=%s: violation sig=%s did not reproduce on replay (nondeterminism in the harness); case=%s\n", s.ID, sig, f.c)
-			return 2
+			// not believed: reported on stderr, never as a VIOLATION. The run fails with exit 2 only if nothing else was confirmed.
+			fmt.Fprintf(os.Stderr, "UNCONFIRMED check=%s: violation sig=%s did not reproduce on replay (nondeterminism); case=%s\n", s.ID, sig, f.c)
+			notes = append(notes, "unconfirmed (did not reproduce on replay): "+sig)
+			unconfirmed++
+			continue
 		}
 		if k := knownSig(ks, sig); k != nil {
 			knownSeen = append(knownSeen, fmt.Sprintf("KNOWN-FINDING: property=%s %s (sig=%s, %d occurrences this run; e.g. %s)", s.ID, k.text, sig, f.n, oneLine(f.v.Msg, 300)))
@@ -446,6 +450,10 @@ func Main[C any](s Spec[C], args []string) int {
 	}
 	for _, l := range knownSeen {
 		fmt.Println(l)
+	}
+	if exit == 0 && unconfirmed > 0 {
+		fmt.Fprintf(os.Stderr, "INTERNAL-ERROR check=%s: %d violation(s) seen but none reproduced on replay\n", s.ID, unconfirmed)
+		exit = 2
 	}
 	if len(bySig) > 0 {
 		exhaustive = exhaustive && !stop.Load()
